@@ -39,5 +39,7 @@ HitsRestOnLines == done => \A i \in DOMAIN notes : \A d \in Divs :
         LET b == HitBox(notes, cfg, notes[i]) IN LineRow(notes, cfg, notes[i].t) = b.y0 + b.h
 \* the gaps the separators are entitled to never hold a pixel of a note
 GapsAvoidNotes == done => \A i \in DOMAIN notes : \A b \in Boxes(notes, cfg, notes[i]) : \A x \in GapXs(notes, cfg) : ~(x >= b.x0 /\ x < b.x0 + b.w)
+\* the coded separator positions are the gaps exactly when the line width is at most 1
+CodedSepsAreGapsWhenThin == (done /\ Keys(notes) > 1) => ((cfg.clw <= 1) <=> (CodedSepXs(notes, cfg) = GapXs(notes, cfg)))
 EmitScn == (Emit /\ done) => PrintT(ToJson([kind |-> "field", notes |-> notes, cfg |-> cfg]))
 =============================================================================
